@@ -777,11 +777,36 @@ class Case:
         self.real_save = self.real_read = self.model_save = self.model_read = self.domain = None
 
 
+def _other_device_dir():
+    """a writable directory on ANOTHER file system than the system temp dir (e.g. /dev/shm), or None: a destination need not
+    be where temporary files live (a save that goes through a scratch file and a rename must cope)"""
+    import tempfile
+
+    try:
+        dev = os.stat(tempfile.gettempdir()).st_dev
+    except OSError:
+        return None
+    for cand in ("/dev/shm", "/var/tmp", os.path.expanduser("~/.cache"), "/run/user/%d" % os.getuid()):
+        try:
+            if os.path.isdir(cand) and os.access(cand, os.W_OK) and os.stat(cand).st_dev != dev:
+                d = pathlib.Path(cand) / f"pydrex-verif-scsv-{os.getpid()}"
+                d.mkdir(parents=True, exist_ok=True)
+                return d
+        except OSError:
+            continue
+    return None
+
+
 def process(cases, res, tag):
     """Run the real code and the model on every case, compare, and evaluate the statement."""
-    path = str(TMP / f"{tag}.scsv")
+    path0 = str(TMP / f"{tag}.scsv")
+    alt = _other_device_dir()
+    path1 = str(alt / f"{tag}.scsv") if alt is not None else path0
     reqs = []
-    for c in cases:
+    for ci_, c in enumerate(cases):
+        path = path1 if ci_ % 4 == 3 else path0
+        if path is path1 and alt is not None:
+            res.count("destination_on_another_file_system_than_tempdir")
         try:
             os.unlink(path)
         except FileNotFoundError:
@@ -1329,6 +1354,9 @@ def run(ctx, res):
     rng = np.random.default_rng(ctx["seed"] + 1616)
     if TMP.exists():
         shutil.rmtree(TMP, ignore_errors=True)
+        _alt = _other_device_dir()
+        if _alt is not None:
+            shutil.rmtree(_alt, ignore_errors=True)
     TMP.mkdir(parents=True, exist_ok=True)
     res.rule = ("type-directed schemas (1..8 fields over string/integer/float/boolean/complex; 40 delimiters; 30 missing markers; "
                 "fills incl. '' and NaN; str/int/float fill objects), rows 1..40 (quick) / up to 1e4 (thorough); streams: valid "
@@ -1406,6 +1434,9 @@ def run(ctx, res):
         check_components(rng, res, thorough)
     finally:
         shutil.rmtree(TMP, ignore_errors=True)
+        _alt = _other_device_dir()
+        if _alt is not None:
+            shutil.rmtree(_alt, ignore_errors=True)
         try:
             TMP.parent.rmdir()
         except OSError:
@@ -1458,4 +1489,7 @@ def replay(data):
             print("broken:", C.json.dumps(b)[:3000])
     finally:
         shutil.rmtree(TMP, ignore_errors=True)
+        _alt = _other_device_dir()
+        if _alt is not None:
+            shutil.rmtree(_alt, ignore_errors=True)
     return rc
